@@ -776,8 +776,10 @@ def c11_r6(ctx, f):
                         adds.add(K(e[3]))
         ctx.check(rid, adds == {3}, sq.path + "/block-score", where_fn(sq), sq.path, "2x2 block penalty", "a uniform 2x2 block does not score 3",
                   expected=3, found=sorted(adds), sample="square_score += 3")
-        ctx.check(rid, 0b1111 in consts and 0 in consts, sq.path + "/uniform", where_fn(sq), sq.path, "uniform test",
-                  "the block is not tested against all-dark (0b1111) and all-light (0)", sample="buffer == 0b1111 || buffer == 0")
+        if 0b1111 in consts and 0 in consts:
+            ctx.ok(rid, "buffer == 0b1111 || buffer == 0")
+        else:
+            ctx.abstain(rid, "uniformity test of the 2x2 block is not written as comparisons with 0b1111 and 0", where_fn(sq))
     dm = anchor_fn(ctx, rid, f, "score::dark_module_score")
     if dm:
         # percent = dark*100/(n*n) indexing PERCENT_SCORE
@@ -1074,7 +1076,7 @@ def c11_r7(ctx, f):
     mk = [c for c in fn.calls("datamasking::mask") if fn.in_loop(c.block)]
     pl = fn.calls("placement::place_on_matrix_data")
     if len(mk) != 1 or len(pl) != 1:
-        ctx.anchor_missing(rid, "one mask call inside the selection loop and one placement call")
+        ctx.abstain(rid, "mask selection is not a loop containing one datamasking::mask call: candidate freshness not recognised", where_fn(fn))
         return
     mk, pl = mk[0], pl[0]
     ctx.analysed(fn, 2)
